@@ -185,7 +185,7 @@ def _fields_grid(tier, rng):
     for k in range(n):
         yield {"cat": rng.choice(cats), "desig": rng.randrange(len(desig)), "ndot": rng.choice(ndots), "ndotdot": rng.choice(drag), "bstar": rng.choice(drag),
                "e": rng.choice(es), "i": rng.choice(angs[:4]), "raan": rng.choice(angs), "argp": rng.choice(angs), "M": rng.choice(angs), "n": rng.choice(ns),
-               "elnb": rng.choice(elnbs), "rev": rng.choice(revs), "epoch": rng.randrange(len(epochs)), "name": k % 3}
+               "elnb": rng.choice(elnbs), "rev": rng.choice(revs), "epoch": rng.randrange(len(epochs)), "name": k % 8}
 
 
 def _compose(a):
@@ -205,7 +205,8 @@ def _compose(a):
     w = lambda ch: int(ch) if ch.isdigit() else (1 if ch == "-" else 0)
     l1 += str(sum(w(ch) for ch in l1) % 10)
     l2 += str(sum(w(ch) for ch in l2) % 10)
-    name = ["", "ISS (ZARYA)", "0 OBJECT A"][a["name"]]
+    # (names that begin with the digit 0, with blanks inside, with the "0 " line number of the three-line format in front, or that look like an element line)
+    name = ["", "ISS (ZARYA)", "0 OBJECT A", "007 SAT", "0 007 SAT", "0-G LAB", "OBJECT  B 0", "0 0"][a["name"]]
     return name, l1, l2
 
 
